@@ -403,6 +403,62 @@ Proof.
   - unfold toA. apply Rabs_le_inv in EA3. apply Rabs_le. lra.
   - unfold toB. apply Rabs_le_inv in EB3. apply Rabs_le. lra.
 Qed.
+(* the same with the magnitudes as parameters: |fy| <= F, |fx - fy| <= D, |fy - fz| <= D.  The errors are
+   then 6e-8 (116 F + 17), 6e-8 (500 D + 1), 6e-8 (200 D + 1) (the float32 rounding of the results) plus 2e-8 (3e-8 for a) *)
+Theorem to_lab_close_gen (F D : R) (x y z wx wy wz : f32) :
+  0 <= F <= 8 -> 0 <= D <= 16 ->
+  is_finite x = true -> is_finite y = true -> is_finite z = true ->
+  is_finite wx = true -> is_finite wy = true -> is_finite wz = true ->
+  0 < B2R wx -> 0 < B2R wy -> 0 < B2R wz ->
+  -1 <= B2R x / B2R wx <= 4 -> -1 <= B2R y / B2R wy <= 4 -> -1 <= B2R z / B2R wz <= 4 ->
+  let fx := f (B2R x / B2R wx) in let fy := f (B2R y / B2R wy) in let fz := f (B2R z / B2R wz) in
+  Rabs fy <= F -> Rabs (fx - fy) <= D -> Rabs (fy - fz) <= D ->
+  exists L A B : f32, to_lab pow x y z wx wy wz = (L :: A :: B :: nil)%list /\
+    is_finite L = true /\ is_finite A = true /\ is_finite B = true /\
+    Rabs (B2R L - toL fy) <= 6 / 100000000 * (116 * F + 17) + 2 / 100000000 /\
+    Rabs (B2R A - toA fx fy) <= 6 / 100000000 * (500 * D + 1) + 3 / 100000000 /\
+    Rabs (B2R B - toB fy fz) <= 6 / 100000000 * (200 * D + 1) + 2 / 100000000.
+Proof.
+  intros HF HD Fx Fy Fz Fwx Fwy Fwz Wx Wy Wz Rx Ry Rz fx fy fz HFy HDa HDb.
+  destruct fin_consts as (FcE & FcK & F16 & F116 & F500 & F200).
+  destruct (component_close x wx Fx Fwx Wx Rx) as [Ffx Efx].
+  destruct (component_close y wy Fy Fwy Wy Ry) as [Ffy Efy].
+  destruct (component_close z wz Fz Fwz Wz Rz) as [Ffz Efz].
+  pose proof (f_range _ Rx) as Bx. pose proof (f_range _ Ry) as By. pose proof (f_range _ Rz) as Bz.
+  fold fx in Efx, Bx. fold fy in Efy, By. fold fz in Efz, Bz.
+  apply Rabs_le_inv in HFy. apply Rabs_le_inv in HDa. apply Rabs_le_inv in HDb.
+  unfold to_lab. cbv zeta.
+  set (hx := component_to_lab pow x wx) in *. set (hy := component_to_lab pow y wy) in *. set (hz := component_to_lab pow z wz) in *.
+  apply Rabs_le_inv in Efx. apply Rabs_le_inv in Efy. apply Rabs_le_inv in Efz. unfold dF in *.
+  (* L *)
+  assert (L1 : Rabs (B2R k116 * B2R hy) <= 10000) by (rewrite k116_val; apply Rabs_le; lra).
+  destruct (mul64_ok k116 hy F116 Ffy L1) as [FL1 EL1]. rewrite k116_val in EL1. apply Rabs_le_inv in EL1. unfold e64 in EL1.
+  assert (L2 : Rabs (B2R (mul64 k116 hy) - B2R k16) <= 10000) by (rewrite k16_val; apply Rabs_le; lra).
+  destruct (sub64_ok _ k16 FL1 F16 L2) as [FL2 EL2]. rewrite k16_val in EL2. apply Rabs_le_inv in EL2. unfold e64 in EL2.
+  assert (L3 : Rabs (B2R (sub64 (mul64 k116 hy) k16)) <= 10000) by (apply Rabs_le; lra).
+  destruct (f32_of_f64_ok _ FL2 L3) as [FL3 EL3].
+  assert (L4 : Rabs (B2R (sub64 (mul64 k116 hy) k16)) <= 116 * F + 17) by (apply Rabs_le; lra).
+  (* A *)
+  assert (A1 : Rabs (B2R hx - B2R hy) <= 10000) by (apply Rabs_le; lra).
+  destruct (sub64_ok hx hy Ffx Ffy A1) as [FA1 EA1]. apply Rabs_le_inv in EA1. unfold e64 in EA1.
+  assert (A2 : Rabs (B2R k500 * B2R (sub64 hx hy)) <= 10000) by (rewrite k500_val; apply Rabs_le; lra).
+  destruct (mul64_ok k500 _ F500 FA1 A2) as [FA2 EA2]. rewrite k500_val in EA2. apply Rabs_le_inv in EA2. unfold e64 in EA2.
+  assert (A3 : Rabs (B2R (mul64 k500 (sub64 hx hy))) <= 10000) by (apply Rabs_le; lra).
+  destruct (f32_of_f64_ok _ FA2 A3) as [FA3 EA3].
+  assert (A4 : Rabs (B2R (mul64 k500 (sub64 hx hy))) <= 500 * D + 1) by (apply Rabs_le; lra).
+  (* B *)
+  assert (B1 : Rabs (B2R hy - B2R hz) <= 10000) by (apply Rabs_le; lra).
+  destruct (sub64_ok hy hz Ffy Ffz B1) as [FB1 EB1]. apply Rabs_le_inv in EB1. unfold e64 in EB1.
+  assert (B2 : Rabs (B2R k200 * B2R (sub64 hy hz)) <= 10000) by (rewrite k200_val; apply Rabs_le; lra).
+  destruct (mul64_ok k200 _ F200 FB1 B2) as [FB2 EB2]. rewrite k200_val in EB2. apply Rabs_le_inv in EB2. unfold e64 in EB2.
+  assert (B3 : Rabs (B2R (mul64 k200 (sub64 hy hz))) <= 10000) by (apply Rabs_le; lra).
+  destruct (f32_of_f64_ok _ FB2 B3) as [FB3 EB3].
+  assert (B4 : Rabs (B2R (mul64 k200 (sub64 hy hz))) <= 200 * D + 1) by (apply Rabs_le; lra).
+  eexists _, _, _. split; [reflexivity|]. repeat split; try assumption.
+  - unfold toL. apply Rabs_le_inv in EL3. apply Rabs_le. lra.
+  - unfold toA. apply Rabs_le_inv in EA3. apply Rabs_le. lra.
+  - unfold toB. apply Rabs_le_inv in EB3. apply Rabs_le. lra.
+Qed.
 End ToLab.
 
 (* the assumption about math.Pow is satisfiable: the correctly rounded cube root meets it *)
@@ -440,4 +496,421 @@ Proof.
   eapply Rle_trans; [apply Rabs_triang|]. rewrite Rabs_mult, (Rabs_pos_eq t) by lra.
   pose proof u64_small. pose proof eta64_small. pose proof (Rabs_pos e).
   assert (t * Rabs e <= t * (112 / 1000000000000000000)) by (apply Rmult_le_compat_l; lra). lra.
+Qed.
+
+(* ---------- Part D: ColorFromLAB and the round trip ---------- *)
+Definition lin' (t : R) : R := (116 * t - 16) / K.
+Lemma lin'_slope a b : lin' b - lin' a = 108 / 841 * (b - a).
+Proof. unfold lin', K. field. Qed.
+Lemma lin'_s : lin' (6 / 29) = E. Proof. unfold lin', K, E. field. Qed.
+Lemma cube_gt t : E < t * t * t <-> 6 / 29 < t.
+Proof.
+  rewrite E_cube. split; intros H.
+  - destruct (Rle_lt_dec t (6 / 29)) as [C|C]; [|exact C]. exfalso.
+    destruct (Rle_lt_dec 0 t) as [P|P]; nra.
+  - nra.
+Qed.
+Lemma g_cube t : 6 / 29 < t -> g t = t * t * t.
+Proof. intros H. unfold g. destruct (Rlt_dec E (t * t * t)) as [_|N]; [reflexivity|]. exfalso. apply N. apply cube_gt. exact H. Qed.
+Lemma g_lin t : t <= 6 / 29 -> g t = lin' t.
+Proof. intros H. unfold g, lin'. destruct (Rlt_dec E (t * t * t)) as [C|_]; [|reflexivity]. apply cube_gt in C. lra. Qed.
+
+(* g is monotone and, on [-T, T] with T >= 1, (3 T^2)-Lipschitz *)
+Lemma g_lipschitz T a b : 1 <= T -> - T <= a -> a <= b -> b <= T -> 0 <= g b - g a <= 3 * T * T * (b - a).
+Proof.
+  intros HT Ha Hab Hb.
+  destruct (Rle_lt_dec b (6 / 29)) as [B1|B1].
+  - assert (A0 : a <= 6 / 29) by lra. rewrite (g_lin b B1), (g_lin a A0), lin'_slope.
+    assert (D0 : 0 <= b - a) by lra. assert (T1 : 1 <= T * T) by nra. split; [nra|].
+    apply Rmult_le_compat_r; [exact D0|lra].
+  - destruct (Rle_lt_dec a (6 / 29)) as [A1|A1].
+    + rewrite (g_cube b B1), (g_lin a A1).
+      pose proof (lin'_slope a (6 / 29)) as S. rewrite lin'_s in S. rewrite E_cube in S.
+      assert (C : b * b * b - 6 / 29 * (6 / 29) * (6 / 29) = (b - 6 / 29) * (b * b + b * (6 / 29) + 6 / 29 * (6 / 29))) by ring.
+      assert (0 <= b * b + b * (6 / 29) + 6 / 29 * (6 / 29) <= 3 * T * T) by nra.
+      assert (T1 : 1 <= T * T) by nra.
+      assert (Q1 : 0 <= b * b * b - 6 / 29 * (6 / 29) * (6 / 29) <= 3 * T * T * (b - 6 / 29)).
+      { rewrite C. split; [apply Rmult_le_pos; lra|]. rewrite (Rmult_comm (3 * T * T)). apply Rmult_le_compat_l; lra. }
+      assert (Q2 : 108 / 841 * (6 / 29 - a) <= 3 * T * T * (6 / 29 - a)) by (apply Rmult_le_compat_r; lra).
+      assert (Q3 : 3 * T * T * (b - a) = 3 * T * T * (b - 6 / 29) + 3 * T * T * (6 / 29 - a)) by ring.
+      assert (Q4 : 0 <= 108 / 841 * (6 / 29 - a)) by (apply Rmult_le_pos; lra).
+      lra.
+    + rewrite (g_cube b B1), (g_cube a A1).
+      assert (C : b * b * b - a * a * a = (b - a) * (b * b + b * a + a * a)) by ring.
+      assert (Q0 : 0 <= b * b + b * a + a * a <= 3 * T * T) by nra.
+      rewrite C. split; [apply Rmult_le_pos; lra|]. rewrite (Rmult_comm (3 * T * T)). apply Rmult_le_compat_l; lra.
+Qed.
+Lemma g_lipschitz_abs T a b : 1 <= T -> Rabs a <= T -> Rabs b <= T -> Rabs (g b - g a) <= 3 * T * T * Rabs (b - a).
+Proof.
+  intros HT Ha Hb. apply Rabs_le_inv in Ha. apply Rabs_le_inv in Hb.
+  destruct (Rle_lt_dec a b) as [H|H].
+  - assert (X1 : - T <= a) by lra. assert (X2 : b <= T) by lra.
+    destruct (g_lipschitz T a b HT X1 H X2). rewrite !Rabs_pos_eq by lra. assumption.
+  - assert (X1 : - T <= b) by lra. assert (X2 : b <= a) by lra. assert (X3 : a <= T) by lra.
+    destruct (g_lipschitz T b a HT X1 X2 X3).
+    rewrite (Rabs_left1 (g b - g a)) by lra. rewrite (Rabs_left1 (b - a)) by lra. lra.
+Qed.
+
+(* a cube within tau of E: the line is within 3 tau of E there *)
+Lemma near_junction t tau : 0 < t -> Rabs (t * t * t - E) <= tau -> Rabs (lin' t - E) <= 3 * tau.
+Proof.
+  intros Ht H. rewrite <- lin'_s, lin'_slope. rewrite E_cube in H.
+  assert (C : t * t * t - 6 / 29 * (6 / 29) * (6 / 29) = (t - 6 / 29) * (t * t + t * (6 / 29) + 6 / 29 * (6 / 29))) by ring.
+  rewrite C in H. rewrite Rabs_mult in H.
+  assert (P : 6 / 29 * (6 / 29) <= t * t + t * (6 / 29) + 6 / 29 * (6 / 29)) by nra.
+  rewrite (Rabs_pos_eq (t * t + t * (6 / 29) + 6 / 29 * (6 / 29))) in H by nra.
+  pose proof (Rabs_pos (t - 6 / 29)) as P0.
+  assert (Rabs (t - 6 / 29) * (6 / 29 * (6 / 29)) <= tau).
+  { eapply Rle_trans; [|exact H]. apply Rmult_le_compat_l; assumption. }
+  rewrite Rabs_mult, (Rabs_pos_eq (108 / 841)) by lra. nra.
+Qed.
+
+Lemma cube_lip a b : Rabs a <= 2 -> Rabs b <= 2 -> Rabs (a * a * a - b * b * b) <= 12 * Rabs (a - b).
+Proof.
+  intros Ha Hb. apply Rabs_le_inv in Ha. apply Rabs_le_inv in Hb.
+  replace (a * a * a - b * b * b) with ((a - b) * (a * a + a * b + b * b)) by ring.
+  rewrite Rabs_mult, Rmult_comm. apply Rmult_le_compat_r; [apply Rabs_pos|].
+  apply Rabs_le. nra.
+Qed.
+Lemma g_bound t : Rabs t <= 2 -> Rabs (g t) <= 25.
+Proof.
+  intros H. assert (H0 : Rabs 0 <= 2) by (rewrite Rabs_R0; lra).
+  pose proof (g_lipschitz_abs 2 0 t ltac:(lra) H0 H) as L. rewrite Rminus_0_r in L.
+  assert (G0 : g 0 = -16 / K) by (rewrite g_lin by lra; unfold lin'; f_equal; ring).
+  rewrite G0 in L. unfold K in L. apply Rabs_le_inv in L. apply Rabs_le. lra.
+Qed.
+Lemma gt32_ok (a b : f32) : is_finite a = true -> is_finite b = true -> gt32 a b = true <-> B2R b < B2R a.
+Proof.
+  intros Fa Fb. unfold gt32. rewrite (Bcompare_correct 24 128 a b Fa Fb).
+  destruct (Rcompare_spec (B2R a) (B2R b)); split; intros; try discriminate; try lra; reflexivity.
+Qed.
+Lemma k8_val : is_finite k8_32 = true /\ B2R k8_32 = 8.
+Proof.
+  split; [vm_compute; reflexivity|].
+  rewrite (const_exact k8_32 8%Q); [unfold Q2R; simpl; lra | vm_compute; reflexivity | vm_compute; reflexivity].
+Qed.
+Lemma k3_val : is_finite k3 = true /\ B2R k3 = 3.
+Proof.
+  split; [vm_compute; reflexivity|].
+  rewrite (const_exact k3 3%Q); [unfold Q2R; simpl; lra | vm_compute; reflexivity | vm_compute; reflexivity].
+Qed.
+
+Section FromLab.
+Variable pow : f64 -> f64 -> f64.
+(* the assumption about math.Pow(t, 3): the cube to an absolute 1e-12 for |t| <= 2 *)
+Hypothesis Hpow3 : forall t : f64, is_finite t = true -> Rabs (B2R t) <= 2 ->
+  is_finite (pow t k3) = true /\ Rabs (B2R (pow t k3) - B2R t * B2R t * B2R t) <= / 1000000000000.
+
+Lemma comp_from_close (t : f64) : is_finite t = true -> Rabs (B2R t) <= 2 ->
+  is_finite (component_from_lab pow t) = true /\ Rabs (B2R (component_from_lab pow t) - g (B2R t)) <= 2 / 100000000000.
+Proof.
+  intros Ft Ht. destruct fin_consts as (FcE & FcK & F16 & F116 & F500 & F200).
+  destruct (Hpow3 t Ft Ht) as [Fp Ep].
+  pose proof cE_val as HcE. pose proof cK_val as HcK. pose proof E_pos as HE.
+  apply Rabs_le_inv in HcE. apply Rabs_le_inv in HcK. apply Rabs_le_inv in Ep.
+  unfold component_from_lab. cbv zeta.
+  set (tr := B2R t) in *. set (p := B2R (pow t k3)) in *.
+  assert (Ht' := Ht). apply Rabs_le_inv in Ht'.
+  (* near the junction: whenever the cube is within 1.1e-12 of E *)
+  assert (NJ : Rabs (tr * tr * tr - E) <= 11 / 10000000000000 -> Rabs (lin' tr - E) <= 33 / 10000000000000).
+  { intros H. assert (0 < tr).
+    { apply Rabs_le_inv in H. unfold E in *. destruct (Rle_lt_dec tr 0) as [N|P]; [|exact P]. exfalso. nra. }
+    replace (33 / 10000000000000) with (3 * (11 / 10000000000000)) by lra. apply near_junction; assumption. }
+  destruct (gt64 (pow t k3) cE) eqn:G.
+  - apply (gt64_ok _ cE Fp FcE) in G. fold p in G. split; [exact Fp|]. fold p.
+    destruct (Rle_lt_dec tr (6 / 29)) as [S|S].
+    + rewrite (g_lin tr S).
+      assert (C : ~ E < tr * tr * tr) by (intros C; apply cube_gt in C; lra).
+      assert (N : Rabs (tr * tr * tr - E) <= 11 / 10000000000000) by (apply Rabs_le; lra).
+      apply NJ in N. apply Rabs_le_inv in N. apply Rabs_le. lra.
+    + rewrite (g_cube tr S). apply Rabs_le. lra.
+  - assert (G' : ~ B2R cE < p).
+    { intros C. apply (gt64_ok _ cE Fp FcE) in C. rewrite C in G. discriminate. }
+    (* the linear branch in float64 *)
+    assert (P1 : Rabs (B2R k116 * tr) <= 10000) by (rewrite k116_val; apply Rabs_le; lra).
+    destruct (mul64_ok k116 t F116 Ft P1) as [F1 E1]. fold tr in E1. rewrite k116_val in E1. apply Rabs_le_inv in E1. unfold e64 in E1.
+    assert (P2 : Rabs (B2R (mul64 k116 t) - B2R k16) <= 10000) by (rewrite k16_val; apply Rabs_le; lra).
+    destruct (sub64_ok _ k16 F1 F16 P2) as [F2 E2]. rewrite k16_val in E2. apply Rabs_le_inv in E2. unfold e64 in E2.
+    set (m2 := B2R (sub64 (mul64 k116 t) k16)) in *.
+    assert (Hc : 903 <= B2R cK <= 904) by (unfold K in HcK; lra).
+    set (q := m2 / B2R cK).
+    assert (Hq : q * B2R cK = m2) by (unfold q; field; lra).
+    assert (Hm2 : -250 <= m2 <= 250) by lra.
+    assert (Hq1 : -1 <= q <= 1) by (split; nra).
+    assert (P3 : Rabs (m2 / B2R cK) <= 10000) by (fold q; apply Rabs_le; lra).
+    destruct (div64_ok _ cK F2 FcK ltac:(lra) P3) as [F3 E3]. fold m2 in E3. fold q in E3. apply Rabs_le_inv in E3. unfold e64 in E3.
+    split; [exact F3|].
+    assert (W : Rabs (q * (K - B2R cK)) <= 1 * / 1000000000000).
+    { apply abs_prod_le'; apply Rabs_le; lra. }
+    apply Rabs_le_inv in W.
+    assert (EQ : (q - lin' tr) * K = q * (K - B2R cK) + (m2 - (116 * tr - 16))).
+    { unfold lin'. rewrite <- Hq. unfold K. field. }
+    assert (QL : Rabs (q - lin' tr) <= 4 / 1000000000000000).
+    { unfold K in EQ at 1. apply Rabs_le. lra. }
+    apply Rabs_le_inv in QL.
+    destruct (Rle_lt_dec tr (6 / 29)) as [S|S].
+    + rewrite (g_lin tr S). apply Rabs_le. lra.
+    + rewrite (g_cube tr S).
+      assert (C : E < tr * tr * tr) by (apply cube_gt; exact S).
+      assert (N : Rabs (tr * tr * tr - E) <= 11 / 10000000000000) by (apply Rabs_le; lra).
+      apply NJ in N. apply Rabs_le_inv in N. apply Rabs_le. lra.
+Qed.
+
+(* one output component: float32(component * float64(white)) *)
+Lemma scale_close (c : f64) (w : f32) (gv : R) :
+  is_finite c = true -> is_finite w = true -> 0 < B2R w <= 2 -> Rabs gv <= 25 ->
+  Rabs (B2R c - gv) <= / 10000000000 ->
+  is_finite (f32_of_f64 (mul64 c (f64_of_f32 w))) = true /\
+  Rabs (B2R (f32_of_f64 (mul64 c (f64_of_f32 w))) - gv * B2R w) <= 6 / 100000000 * Rabs (gv * B2R w) + / 100000000.
+Proof.
+  intros Fc Fw Hw Hg Hc. destruct (f64_of_f32_ok w Fw) as [Fw' Ew].
+  apply Rabs_le_inv in Hg. apply Rabs_le_inv in Hc.
+  assert (Hcw : Rabs (B2R c * B2R w - gv * B2R w) <= 2 / 10000000000).
+  { replace (B2R c * B2R w - gv * B2R w) with ((B2R c - gv) * B2R w) by ring.
+    replace (2 / 10000000000) with (/ 10000000000 * 2) by lra. apply abs_prod_le'; apply Rabs_le; lra. }
+  assert (Hgw : Rabs (gv * B2R w) <= 25 * 2) by (apply abs_prod_le'; apply Rabs_le; lra).
+  apply Rabs_le_inv in Hcw. apply Rabs_le_inv in Hgw.
+  assert (P1 : Rabs (B2R c * B2R (f64_of_f32 w)) <= 10000) by (rewrite Ew; apply Rabs_le; lra).
+  destruct (mul64_ok c _ Fc Fw' P1) as [F1 E1]. rewrite Ew in E1. apply Rabs_le_inv in E1. unfold e64 in E1.
+  set (s2 := B2R (mul64 c (f64_of_f32 w))) in *.
+  assert (P2 : Rabs s2 <= 10000) by (apply Rabs_le; lra).
+  destruct (f32_of_f64_ok _ F1 P2) as [F2 E2]. fold s2 in E2.
+  split; [exact F2|].
+  assert (T : Rabs s2 <= Rabs (gv * B2R w) + 3 / 10000000000).
+  { replace s2 with ((gv * B2R w) + (s2 - gv * B2R w)) at 1 by ring.
+    eapply Rle_trans; [apply Rabs_triang|]. apply Rplus_le_compat_l. apply Rabs_le. lra. }
+  replace (B2R (f32_of_f64 (mul64 c (f64_of_f32 w))) - gv * B2R w)
+    with ((B2R (f32_of_f64 (mul64 c (f64_of_f32 w))) - s2) + (s2 - gv * B2R w)) by ring.
+  eapply Rle_trans; [apply Rabs_triang|].
+  assert (Rabs (s2 - gv * B2R w) <= 3 / 10000000000) by (apply Rabs_le; lra).
+  pose proof (Rabs_pos (gv * B2R w)). lra.
+Qed.
+
+(* ColorFromLAB(lab, whitePoint) against the definition's inverse *)
+Theorem from_lab_close (l a b wx wy wz : f32) :
+  is_finite l = true -> is_finite a = true -> is_finite b = true ->
+  is_finite wx = true -> is_finite wy = true -> is_finite wz = true ->
+  0 < B2R wx <= 2 -> 0 < B2R wy <= 2 -> 0 < B2R wz <= 2 ->
+  let fy := (B2R l + 16) / 116 in let fx := B2R a / 500 + fy in let fz := fy - B2R b / 200 in
+  Rabs fx <= 19 / 10 -> Rabs fy <= 19 / 10 -> Rabs fz <= 19 / 10 ->
+  exists X Y Z : f32, from_lab pow l a b wx wy wz = (X :: Y :: Z :: nil)%list /\
+    is_finite X = true /\ is_finite Y = true /\ is_finite Z = true /\
+    Rabs (B2R X - g fx * B2R wx) <= 6 / 100000000 * Rabs (g fx * B2R wx) + / 100000000 /\
+    Rabs (B2R Y - g fy * B2R wy) <= 6 / 100000000 * Rabs (g fy * B2R wy) + / 100000000 /\
+    Rabs (B2R Z - g fz * B2R wz) <= 6 / 100000000 * Rabs (g fz * B2R wz) + / 100000000.
+Proof.
+  intros Fl Fa Fb Fwx Fwy Fwz Wx Wy Wz fy fx fz Hfx Hfy Hfz.
+  destruct fin_consts as (FcE & FcK & F16 & F116 & F500 & F200).
+  destruct (f64_of_f32_ok l Fl) as [Fl' El]. destruct (f64_of_f32_ok a Fa) as [Fa' Ea]. destruct (f64_of_f32_ok b Fb) as [Fb' Eb].
+  assert (Hfx' := Hfx). assert (Hfy' := Hfy). assert (Hfz' := Hfz).
+  apply Rabs_le_inv in Hfx'. apply Rabs_le_inv in Hfy'. apply Rabs_le_inv in Hfz'.
+  unfold fx, fz, fy in Hfx', Hfy', Hfz'.
+  unfold from_lab. cbv zeta.
+  (* fy *)
+  assert (P1 : Rabs (B2R (f64_of_f32 l) + B2R k16) <= 10000) by (rewrite El, k16_val; apply Rabs_le; lra).
+  destruct (add64_ok _ k16 Fl' F16 P1) as [F1 E1]. rewrite El, k16_val in E1. apply Rabs_le_inv in E1. unfold e64 in E1.
+  assert (P2 : Rabs (B2R (add64 (f64_of_f32 l) k16) / B2R k116) <= 10000) by (rewrite k116_val; apply Rabs_le; lra).
+  destruct (div64_ok _ k116 F1 F116 ltac:(rewrite k116_val; lra) P2) as [F2 E2]. rewrite k116_val in E2. apply Rabs_le_inv in E2. unfold e64 in E2.
+  set (hy := div64 (add64 (f64_of_f32 l) k16) k116) in *.
+  assert (Dy : Rabs (B2R hy - fy) <= 25 / 10000000000000) by (unfold fy; apply Rabs_le; lra).
+  (* fx *)
+  assert (P3 : Rabs (B2R (f64_of_f32 a) / B2R k500) <= 10000) by (rewrite Ea, k500_val; apply Rabs_le; lra).
+  destruct (div64_ok _ k500 Fa' F500 ltac:(rewrite k500_val; lra) P3) as [F3 E3]. rewrite Ea, k500_val in E3. apply Rabs_le_inv in E3. unfold e64 in E3.
+  apply Rabs_le_inv in Dy. unfold fy in Dy.
+  assert (P4 : Rabs (B2R (div64 (f64_of_f32 a) k500) + B2R hy) <= 10000) by (apply Rabs_le; lra).
+  destruct (add64_ok _ hy F3 F2 P4) as [F4 E4]. apply Rabs_le_inv in E4. unfold e64 in E4.
+  set (hx := add64 (div64 (f64_of_f32 a) k500) hy) in *.
+  assert (Dx : Rabs (B2R hx - fx) <= 5 / 1000000000000) by (unfold fx, fy; apply Rabs_le; lra).
+  (* fz *)
+  assert (P5 : Rabs (B2R (f64_of_f32 b) / B2R k200) <= 10000) by (rewrite Eb, k200_val; apply Rabs_le; lra).
+  destruct (div64_ok _ k200 Fb' F200 ltac:(rewrite k200_val; lra) P5) as [F5 E5]. rewrite Eb, k200_val in E5. apply Rabs_le_inv in E5. unfold e64 in E5.
+  assert (P6 : Rabs (B2R hy - B2R (div64 (f64_of_f32 b) k200)) <= 10000) by (apply Rabs_le; lra).
+  destruct (sub64_ok hy _ F2 F5 P6) as [F6 E6]. apply Rabs_le_inv in E6. unfold e64 in E6.
+  set (hz := sub64 hy (div64 (f64_of_f32 b) k200)) in *.
+  assert (Dz : Rabs (B2R hz - fz) <= 5 / 1000000000000) by (unfold fz, fy; apply Rabs_le; lra).
+  apply Rabs_le_inv in Dx. apply Rabs_le_inv in Dz. unfold fx, fz, fy in Dx, Dz.
+  assert (Bhx : Rabs (B2R hx) <= 2) by (apply Rabs_le; lra).
+  assert (Bhy : Rabs (B2R hy) <= 2) by (apply Rabs_le; lra).
+  assert (Bhz : Rabs (B2R hz) <= 2) by (apply Rabs_le; lra).
+  assert (Bfx : Rabs fx <= 2) by lra. assert (Bfy : Rabs fy <= 2) by lra. assert (Bfz : Rabs fz <= 2) by lra.
+  (* X and Z through component_from_lab *)
+  destruct (comp_from_close hx F4 Bhx) as [FX EX]. destruct (comp_from_close hz F6 Bhz) as [FZ EZ].
+  assert (GX : Rabs (B2R (component_from_lab pow hx) - g fx) <= / 10000000000).
+  { replace (B2R (component_from_lab pow hx) - g fx) with ((B2R (component_from_lab pow hx) - g (B2R hx)) + (g (B2R hx) - g fx)) by ring.
+    eapply Rle_trans; [apply Rabs_triang|].
+    pose proof (g_lipschitz_abs 2 fx (B2R hx) ltac:(lra) Bfx Bhx) as L.
+    assert (Rabs (B2R hx - fx) <= 5 / 1000000000000) by (unfold fx, fy; apply Rabs_le; lra). lra. }
+  assert (GZ : Rabs (B2R (component_from_lab pow hz) - g fz) <= / 10000000000).
+  { replace (B2R (component_from_lab pow hz) - g fz) with ((B2R (component_from_lab pow hz) - g (B2R hz)) + (g (B2R hz) - g fz)) by ring.
+    eapply Rle_trans; [apply Rabs_triang|].
+    pose proof (g_lipschitz_abs 2 fz (B2R hz) ltac:(lra) Bfz Bhz) as L.
+    assert (Rabs (B2R hz - fz) <= 5 / 1000000000000) by (unfold fz, fy; apply Rabs_le; lra). lra. }
+  destruct (scale_close _ wx (g fx) FX Fwx Wx (g_bound fx Bfx) GX) as [FXo EXo].
+  destruct (scale_close _ wz (g fz) FZ Fwz Wz (g_bound fz Bfz) GZ) as [FZo EZo].
+  (* Y: the separate branch on L > 8 *)
+  destruct k8_val as [F8 E8].
+  assert (YR : exists yr : f64,
+     (if gt32 l k8_32 then pow hy k3 else div64 (f64_of_f32 l) cK) = yr /\ is_finite yr = true /\ Rabs (B2R yr - g fy) <= / 10000000000).
+  { destruct (gt32 l k8_32) eqn:G.
+    - apply (gt32_ok l k8_32 Fl F8) in G. rewrite E8 in G.
+      destruct (Hpow3 hy F2 Bhy) as [Fp Ep]. eexists. split; [reflexivity|]. split; [exact Fp|].
+      assert (S : 6 / 29 < fy) by (unfold fy; lra). rewrite (g_cube fy S).
+      pose proof (cube_lip (B2R hy) fy Bhy Bfy) as CL.
+      assert (Rabs (B2R hy - fy) <= 25 / 10000000000000) by (unfold fy; apply Rabs_le; lra).
+      replace (B2R (pow hy k3) - fy * fy * fy) with ((B2R (pow hy k3) - B2R hy * B2R hy * B2R hy) + (B2R hy * B2R hy * B2R hy - fy * fy * fy)) by ring.
+      eapply Rle_trans; [apply Rabs_triang|]. lra.
+    - assert (G' : ~ 8 < B2R l).
+      { intros C. rewrite <- E8 in C. apply (gt32_ok l k8_32 Fl F8) in C. rewrite C in G. discriminate. }
+      pose proof cK_val as HcK. apply Rabs_le_inv in HcK.
+      assert (Hc : 903 <= B2R cK <= 904) by (unfold K in HcK; lra).
+      set (q := B2R l / B2R cK).
+      assert (Hq : q * B2R cK = B2R l) by (unfold q; field; lra).
+      assert (Hq1 : -1 <= q <= 1) by (split; nra).
+      assert (P7 : Rabs (B2R (f64_of_f32 l) / B2R cK) <= 10000) by (rewrite El; fold q; apply Rabs_le; lra).
+      destruct (div64_ok _ cK Fl' FcK ltac:(lra) P7) as [F7 E7]. rewrite El in E7. fold q in E7. apply Rabs_le_inv in E7. unfold e64 in E7.
+      eexists. split; [reflexivity|]. split; [exact F7|].
+      assert (S : fy <= 6 / 29) by (unfold fy; lra). rewrite (g_lin fy S).
+      assert (W : Rabs (q * (K - B2R cK)) <= 1 * / 1000000000000) by (apply abs_prod_le'; apply Rabs_le; lra).
+      apply Rabs_le_inv in W.
+      assert (EQ : (q - lin' fy) * K = q * (K - B2R cK)).
+      { unfold lin', fy. rewrite <- Hq. unfold K. field. }
+      unfold K in EQ at 1. apply Rabs_le. lra. }
+  destruct YR as (yr & Eyr & Fyr & Gyr). rewrite Eyr.
+  destruct (scale_close yr wy (g fy) Fyr Fwy Wy (g_bound fy Bfy) Gyr) as [FYo EYo].
+  eexists _, _, _. split; [reflexivity|]. repeat split; assumption.
+Qed.
+End FromLab.
+
+(* ---------- XYZ -> Lab -> XYZ in floats, at unit scale ---------- *)
+Lemma f_zero : f 0 = 16 / 116.
+Proof. rewrite f_lin by (pose proof E_pos; lra). unfold lin. field. Qed.
+Lemma f_unit r : 0 <= r <= 1 -> 16 / 116 <= f r <= 1.
+Proof.
+  intros [H0 H1]. pose proof (f_monotone 0 r H0) as M0. pose proof (f_monotone r 1 H1) as M1.
+  rewrite f_zero in M0. rewrite f_one in M1. lra.
+Qed.
+
+Section RoundTrip.
+Variable pow : f64 -> f64 -> f64.
+Hypothesis Hpow : forall r : f64, is_finite r = true -> B2R cE < B2R r -> B2R r <= 5 ->
+  is_finite (pow r cThird) = true /\ Rabs (B2R (pow r cThird) - cbrt (B2R r)) <= / 1000000000000 * cbrt (B2R r).
+Hypothesis Hpow3 : forall t : f64, is_finite t = true -> Rabs (B2R t) <= 2 ->
+  is_finite (pow t k3) = true /\ Rabs (B2R (pow t k3) - B2R t * B2R t * B2R t) <= / 1000000000000.
+
+(* one component of the way back *)
+Lemma back_close (X v w : f32) (fv fv' : R) :
+  0 < B2R w <= 2 -> 0 <= B2R v / B2R w <= 1 -> fv = f (B2R v / B2R w) ->
+  Rabs fv' <= 19 / 10 -> Rabs (fv' - fv) <= 14 / 100000000 ->
+  Rabs (B2R X - g fv' * B2R w) <= 6 / 100000000 * Rabs (g fv' * B2R w) + / 100000000 ->
+  Rabs (B2R X - B2R v) <= / 1000000.
+Proof.
+  intros Hw Hr Efv Hb Hd HX.
+  assert (Gf : g fv = B2R v / B2R w) by (rewrite Efv; apply g_f).
+  pose proof (f_unit _ Hr) as Fu. rewrite <- Efv in Fu.
+  assert (B1 : Rabs fv <= 101 / 100) by (apply Rabs_le; lra).
+  assert (B2 : Rabs fv' <= 101 / 100) by (apply Rabs_le_inv in Hd; apply Rabs_le; lra).
+  pose proof (g_lipschitz_abs (101 / 100) fv fv' ltac:(lra) B1 B2) as L.
+  assert (GL : Rabs (g fv' - g fv) <= 43 / 100000000).
+  { eapply Rle_trans; [exact L|]. pose proof (Rabs_pos (fv' - fv)). nra. }
+  rewrite Gf in GL. set (rho := B2R v / B2R w) in *.
+  assert (Ev : B2R v = rho * B2R w) by (unfold rho; field; lra).
+  apply Rabs_le_inv in GL.
+  assert (P1 : Rabs (g fv' * B2R w) <= 1000001 / 1000000 * 2) by (apply abs_prod_le'; apply Rabs_le; lra).
+  assert (P2 : Rabs ((g fv' - rho) * B2R w) <= 43 / 100000000 * 2) by (apply abs_prod_le'; apply Rabs_le; lra).
+  replace (B2R X - B2R v) with ((B2R X - g fv' * B2R w) + (g fv' - rho) * B2R w) by (rewrite Ev; ring).
+  eapply Rle_trans; [apply Rabs_triang|]. lra.
+Qed.
+
+Theorem lab_float_round_trip (x y z wx wy wz : f32) :
+  is_finite x = true -> is_finite y = true -> is_finite z = true ->
+  is_finite wx = true -> is_finite wy = true -> is_finite wz = true ->
+  0 < B2R wx <= 2 -> 0 < B2R wy <= 2 -> 0 < B2R wz <= 2 ->
+  0 <= B2R x / B2R wx <= 1 -> 0 <= B2R y / B2R wy <= 1 -> 0 <= B2R z / B2R wz <= 1 ->
+  exists L A B X Y Z : f32,
+    to_lab pow x y z wx wy wz = (L :: A :: B :: nil)%list /\
+    from_lab pow L A B wx wy wz = (X :: Y :: Z :: nil)%list /\
+    is_finite X = true /\ is_finite Y = true /\ is_finite Z = true /\
+    Rabs (B2R X - B2R x) <= / 1000000 /\ Rabs (B2R Y - B2R y) <= / 1000000 /\ Rabs (B2R Z - B2R z) <= / 1000000.
+Proof.
+  intros Fx Fy Fz Fwx Fwy Fwz Wx Wy Wz Rx Ry Rz.
+  pose proof (f_unit _ Rx) as Ux. pose proof (f_unit _ Ry) as Uy. pose proof (f_unit _ Rz) as Uz.
+  assert (Rx4 : -1 <= B2R x / B2R wx <= 4) by lra. assert (Ry4 : -1 <= B2R y / B2R wy <= 4) by lra. assert (Rz4 : -1 <= B2R z / B2R wz <= 4) by lra.
+  destruct (to_lab_close_gen pow Hpow 1 1 x y z wx wy wz ltac:(lra) ltac:(lra) Fx Fy Fz Fwx Fwy Fwz ltac:(lra) ltac:(lra) ltac:(lra) Rx4 Ry4 Rz4
+              ltac:(apply Rabs_le; lra) ltac:(apply Rabs_le; lra) ltac:(apply Rabs_le; lra))
+    as (L & A & B & ETo & FL & FA & FB & EL & EA & EB).
+  set (fx := f (B2R x / B2R wx)) in *. set (fy := f (B2R y / B2R wy)) in *. set (fz := f (B2R z / B2R wz)) in *.
+  unfold toL in EL. unfold toA in EA. unfold toB in EB.
+  apply Rabs_le_inv in EL. apply Rabs_le_inv in EA. apply Rabs_le_inv in EB.
+  set (fy' := (B2R L + 16) / 116). set (fx' := B2R A / 500 + fy'). set (fz' := fy' - B2R B / 200).
+  assert (Dy : Rabs (fy' - fy) <= 14 / 100000000) by (unfold fy'; apply Rabs_le; lra).
+  assert (Dx : Rabs (fx' - fx) <= 14 / 100000000) by (unfold fx', fy'; apply Rabs_le; lra).
+  assert (Dz : Rabs (fz' - fz) <= 14 / 100000000) by (unfold fz', fy'; apply Rabs_le; lra).
+  assert (Bx : Rabs fx' <= 19 / 10) by (apply Rabs_le_inv in Dx; apply Rabs_le; lra).
+  assert (By : Rabs fy' <= 19 / 10) by (apply Rabs_le_inv in Dy; apply Rabs_le; lra).
+  assert (Bz : Rabs fz' <= 19 / 10) by (apply Rabs_le_inv in Dz; apply Rabs_le; lra).
+  destruct (from_lab_close pow Hpow3 L A B wx wy wz FL FA FB Fwx Fwy Fwz Wx Wy Wz Bx By Bz)
+    as (X & Y & Z & EFrom & FX & FY & FZ & EX & EY & EZ).
+  exists L, A, B, X, Y, Z. split; [exact ETo|]. split; [exact EFrom|]. split; [exact FX|]. split; [exact FY|]. split; [exact FZ|].
+  split; [|split].
+  - exact (back_close X x wx fx fx' Wx Rx eq_refl Bx Dx EX).
+  - exact (back_close Y y wy fy fy' Wy Ry eq_refl By Dy EY).
+  - exact (back_close Z z wz fz fz' Wz Rz eq_refl Bz Dz EZ).
+Qed.
+End RoundTrip.
+
+(* both assumptions about math.Pow are met by one function: the correctly rounded result *)
+Definition round_to_f64 (t : R) : f64 :=
+  binary_normalize 53 1024 P53 PE1024 mode_NE
+    (ZnearestE (scaled_mantissa radix2 (SpecFloat.fexp 53 1024) t)) (cexp radix2 (SpecFloat.fexp 53 1024) t) false.
+Lemma round_to_f64_ok t : Rabs t <= 10000 -> is_finite (round_to_f64 t) = true /\ B2R (round_to_f64 t) = rnd64 t.
+Proof.
+  intros Ht. unfold round_to_f64.
+  generalize (binary_normalize_correct 53 1024 P53 PE1024 mode_NE
+    (ZnearestE (scaled_mantissa radix2 (SpecFloat.fexp 53 1024) t)) (cexp radix2 (SpecFloat.fexp 53 1024) t) false).
+  cbv zeta. simpl round_mode.
+  change (F2R (Float radix2 (ZnearestE (scaled_mantissa radix2 (SpecFloat.fexp 53 1024) t)) (cexp radix2 (SpecFloat.fexp 53 1024) t)))
+    with (rnd64 t).
+  assert (Hv : Valid_exp (SpecFloat.fexp 53 1024)) by (apply fexp_correct; exact P53).
+  rewrite (round_generic radix2 (SpecFloat.fexp 53 1024) ZnearestE (rnd64 t)) by (apply generic_format_round; auto with typeclass_instances).
+  destruct (r64_close t Ht) as [C M].
+  rewrite Rlt_bool_true by (apply below_emax64; exact M).
+  intros (H1 & H2 & _). split; assumption.
+Qed.
+Definition pow_model (r y : f64) : f64 :=
+  if (bits64 y =? bits64 k3)%Z then round_to_f64 (B2R r * B2R r * B2R r) else round_to_f64 (cbrt (B2R r)).
+
+Lemma pow_model_cbrt : forall r : f64, is_finite r = true -> B2R cE < B2R r -> B2R r <= 5 ->
+  is_finite (pow_model r cThird) = true /\ Rabs (B2R (pow_model r cThird) - cbrt (B2R r)) <= / 1000000000000 * cbrt (B2R r).
+Proof.
+  intros r Fr Hlo Hhi. unfold pow_model.
+  replace (bits64 cThird =? bits64 k3)%Z with false by (vm_compute; reflexivity).
+  pose proof cE_val as HcE. apply Rabs_le_inv in HcE.
+  assert (Hr0 : 0 < B2R r) by (unfold E in HcE; lra).
+  set (t := cbrt (B2R r)).
+  assert (Ht2 : t <= 2) by (apply cbrt_le_2; lra).
+  assert (Ht0 : / 10 <= t).
+  { assert (/ 1000 <= B2R r) by (unfold E in HcE; lra).
+    replace (/ 10) with (cbrt (/ 10 * / 10 * / 10)) by (unfold cbrt; apply cube_root_cube; lra).
+    apply cbrt_mono; lra. }
+  destruct (round_to_f64_ok t ltac:(apply Rabs_le; lra)) as [F1 E1]. split; [exact F1|]. rewrite E1.
+  destruct (rnd_err 53 1024 P53 t) as (e & h & He & Hh & Hr). rewrite Hr.
+  replace (t * (1 + e) + h - t) with (t * e + h) by ring.
+  eapply Rle_trans; [apply Rabs_triang|]. rewrite Rabs_mult, (Rabs_pos_eq t) by lra.
+  pose proof u64_small. pose proof eta64_small. pose proof (Rabs_pos e).
+  assert (t * Rabs e <= t * (112 / 1000000000000000000)) by (apply Rmult_le_compat_l; lra). lra.
+Qed.
+Lemma pow_model_cube : forall t : f64, is_finite t = true -> Rabs (B2R t) <= 2 ->
+  is_finite (pow_model t k3) = true /\ Rabs (B2R (pow_model t k3) - B2R t * B2R t * B2R t) <= / 1000000000000.
+Proof.
+  intros t Ft Ht. unfold pow_model. rewrite Z.eqb_refl.
+  apply Rabs_le_inv in Ht.
+  assert (H8 : Rabs (B2R t * B2R t * B2R t) <= 10000) by (apply Rabs_le; nra).
+  destruct (round_to_f64_ok _ H8) as [F1 E1]. split; [exact F1|]. rewrite E1.
+  set (c := B2R t * B2R t * B2R t) in *.
+  assert (H8' : Rabs c <= 8) by (apply Rabs_le; unfold c; nra).
+  destruct (rnd_err 53 1024 P53 c) as (e & h & He & Hh & Hr). rewrite Hr.
+  replace (c * (1 + e) + h - c) with (c * e + h) by ring.
+  eapply Rle_trans; [apply Rabs_triang|].
+  pose proof u64_small. pose proof eta64_small.
+  assert (Rabs (c * e) <= 8 * (112 / 1000000000000000000)) by (apply abs_prod_le'; lra). lra.
 Qed.
